@@ -9,7 +9,7 @@ use once_cell::sync::Lazy;
 use crate::instruction;
 use crate::parser::{AssocFileData, Node, Parser, Rule};
 
-use super::r#type::TypeLayout;
+use super::r#type::{NativeType, StrWrapper, TypeLayout};
 use super::{new_err, CompilationState, Compile, CompiledItem, Dependencies, Dependency};
 
 #[derive(Debug, Clone, Eq)]
@@ -175,6 +175,16 @@ impl Ident {
         user_data: &AssocFileData,
         ty: Cow<'static, TypeLayout>,
     ) -> Result<()> {
+        // the length of a string literal is a fact about that one value; only a `const`
+        // name is guaranteed to keep holding it (a variable may be re-assigned in a nested
+        // block or extended with `+=` while its static type stays what it was)
+        let ty = match ty.as_ref() {
+            TypeLayout::Native(NativeType::Str(StrWrapper(Some(_)))) if !self.is_const() => {
+                Cow::Owned(TypeLayout::Native(NativeType::Str(StrWrapper::unknown_size())))
+            }
+            _ => ty,
+        };
+
         self.ty = Some(ty);
         user_data.add_dependency(self);
         Ok(())
